@@ -615,6 +615,8 @@ func init() {
 			{Pkg: "fasthttp", Func: "vhC37FS", NoNative: true, Race: true},
 			{Pkg: "fasthttp", Func: "vhC37LBClient", NoNative: true, Race: true},
 			{Pkg: "fasthttp", Func: "vhC37TimeoutStream", NoNative: true, Race: true},
+			{Pkg: "fasthttp", Func: "vhC37Pipeline", NoNative: true, Race: true},
+			{Pkg: "fasthttp", Func: "vhC37DialerRefresh", NoNative: true, Race: true},
 			{Pkg: "fasthttp", Func: "vhC38Deadlines", Quick: map[string]int{"calls": 5}, Thorough: map[string]int{"calls": 6}, NoNative: true, Race: true},
 			{Pkg: "fasthttp", Func: "vhC41ConcurrentRotation", NoNative: true, Race: true},
 			{Pkg: "fasthttp", Func: "vhC41Dialer", Quick: map[string]int{"dials": 3}, Thorough: map[string]int{"dials": 4}, NoNative: true, Race: true},
@@ -628,9 +630,9 @@ func init() {
 			{Pkg: "fasthttputil", Func: "vhC33Listener", NoNative: true, Race: true},
 		},
 		Assume: []string{
-			"happens-before race detection inside the symbolic interpreter (engine/interp/race.go): a vector clock per goroutine, a shadow cell (last write, reads since) per memory slot and per map; go statements, mutex / RWMutex lock and unlock, channel send / receive / close / select, WaitGroup, Cond, Pool Get/Put, every sync/atomic operation, the sync.Map model and timer callbacks are acquire and/or release operations (where the exact Go-memory-model edge would need more bookkeeping the model adds edges, so it can miss a race but a missing edge is never the reason for a report); accesses through sync/atomic are synchronisation, not data accesses, so mixed atomic / plain access to one word is not detected; a race whose two sites are both in harness code is not reported",
+			"happens-before race detection inside the symbolic interpreter (engine/interp/race.go): a vector clock per goroutine, a shadow cell (last write, reads since) per memory slot and per map; go statements, mutex / RWMutex lock and unlock, channel send / receive / close / select, WaitGroup, Cond, Pool Get/Put, every sync/atomic operation, the sync.Map model and timer callbacks are acquire and/or release operations (where the exact Go-memory-model edge would need more bookkeeping the model adds edges, so it can miss a race but a missing edge is never the reason for a report); an access through sync/atomic is synchronisation as well as an access: it conflicts with an unordered plain access to the same word, never with another atomic access; a race whose two sites are both in harness code is not reported",
 			"a race is reported when two accesses to one slot or map, at least one a write, from different goroutines are unordered by happens-before on a path the engine runs — independent of the order the cooperative scheduler ran them in, but only for accesses that both occur on that path; the paths are those of the harness choices (options, request kinds, delays on the virtual clock), not all interleavings",
-			"uses exercised: one Server serving 2–3 connections through the worker pool with counters read from outside and Shutdown during traffic (also the C15 harness); one HostClient / Client called from 2–3 goroutines with MaxConns 1–2, slow and closing servers, idle-connection cleaners and CloseIdleConnections; PipelineClient (the C38 harness); LBClient with concurrent calls, AddClient and RemoveClients (also the C40 harness); TCPDialer concurrent dials and address rotation (the C41 harnesses); one FS handler called from two goroutines with the cache cleaner running; TimeoutHandler over a streamed request body that is still arriving when the timeout fires (vhC37TimeoutStream); the worker pool (C13 harness), TimeoutHandler with a handler that outlives its deadline and follows the retention rules (C16 harness), the HostClient connection pool under MaxConns (C18 harness), pipelined calls (C04 harness) refused / outliving connections on the Serve path (C14 harness), and fasthttputil's in-memory listener with concurrent dialers, accepter and Close (C33 harness). TLS, compression, streaming bodies, hijacked connections and the race detector's view of the real runtime (native -race runs) are outside; counterexamples are not re-run natively",
+			"uses exercised: one Server serving 2–3 connections through the worker pool with counters read from outside and Shutdown during traffic (also the C15 harness); one HostClient / Client called from 2–3 goroutines with MaxConns 1–2, slow and closing servers, idle-connection cleaners and CloseIdleConnections; PipelineClient (the C38 harness, and vhC37Pipeline: two callers and a short MaxIdleConnDuration so that the writer's idle check runs between calls); LBClient with concurrent calls, AddClient and RemoveClients (also the C40 harness); TCPDialer concurrent dials and address rotation (the C41 harnesses) and concurrent dials while an expired DNS entry is being refreshed, successfully or not (vhC37DialerRefresh); one FS handler called from two goroutines with the cache cleaner running; TimeoutHandler over a streamed request body that is still arriving when the timeout fires (vhC37TimeoutStream); the worker pool (C13 harness), TimeoutHandler with a handler that outlives its deadline and follows the retention rules (C16 harness), the HostClient connection pool under MaxConns (C18 harness), pipelined calls (C04 harness) refused / outliving connections on the Serve path (C14 harness), and fasthttputil's in-memory listener with concurrent dialers, accepter and Close (C33 harness). TLS, compression, streaming bodies, hijacked connections and the race detector's view of the real runtime (native -race runs) are outside; counterexamples are not re-run natively",
 		},
 	})
 }
